@@ -62,6 +62,8 @@ package run
 // in the meantime: the guarded table is arbitrary at that point, except that the invariant holds.
 //@ ghost var sinkowner [1099511627776]int
 //@ ghost var lockorc *ReloadableOrchestrator
+// lockheld: ghost - the current goroutine holds downstreamMutex (either side)
+//@ ghost var lockheld bool
 //@ pure func lockinv(o *ReloadableOrchestrator) bool := forall i int :: 0 <= i && i < base.MaxClientNumber && o.downstreamSinks[i] != nil ==> sinkowner[ref(o.downstreamSinks[i])] == ref(o.downstream)
 //@ extern func (o base.Orchestrator) NewSink(clientAddress string, clientNumber base.ClientNumber) base.BufferReceiverSink
 //@   modifies sinkowner
@@ -70,13 +72,25 @@ package run
 //@   ensures forall s int :: s != ref(result) ==> sinkowner[s] == old(sinkowner[s])
 //@ extern func (o base.Orchestrator) Shutdown()
 //@   modifies nothing
+// a downstream sink may only be used while downstreamMutex is held: a reload (write side) closes the sinks and shuts their
+// orchestrator down, and must not do so in the middle of an Accept / Tick / Close of a connection goroutine
 //@ extern func (s base.BufferReceiverSink) Close()
+//@   requires[sink-is-used-under-the-lock] lockheld
+//@   modifies nothing
+//@ extern func (s base.BufferReceiverSink) Tick()
+//@   requires[sink-is-used-under-the-lock] lockheld
+//@   modifies nothing
+//@ extern func (s base.BufferReceiverSink) Accept(buffer []*base.LogRecord)
+//@   requires[sink-is-used-under-the-lock] lockheld
 //@   modifies nothing
 //@ fieldspec ReloadableOrchestrator.downstreamMutex.Lock(m *xsync.RBMutex)
-//@   modifies run.ReloadableOrchestrator.downstreamSinks, run.ReloadableOrchestrator.downstreamAddrs
+//@   modifies run.ReloadableOrchestrator.downstreamSinks, run.ReloadableOrchestrator.downstreamAddrs, lockheld
+//@   ghostset lockheld := true
 //@   ensures lockinv(lockorc)
 //@ fieldspec ReloadableOrchestrator.downstreamMutex.Unlock(m *xsync.RBMutex)
 //@   requires[every-registered-sink-belongs-to-the-live-orchestrator] lockinv(lockorc)
+//@   modifies lockheld
+//@   ghostset lockheld := false
 //@ func (orc *ReloadableOrchestrator) reload()
 //@   property C17
 //@   requires orc != nil && orc.initiateReload != nil && orc.logger != nil && orc.downstreamMutex != nil && orc.downstream != nil && reloadFailureCounter != nil && reloadSuccessCounter != nil
@@ -97,10 +111,13 @@ package run
 // orchestrator and the table) is arbitrary at that point, except that the lock invariant holds; it must hold again at
 // the release. A sink registered under the read lock therefore has to be created from the orchestrator read under it.
 //@ fieldspec ReloadableOrchestrator.downstreamMutex.RLock(m *xsync.RBMutex) *xsync.RToken
-//@   modifies run.ReloadableOrchestrator.downstream, run.ReloadableOrchestrator.downstreamSinks, run.ReloadableOrchestrator.downstreamAddrs
+//@   modifies run.ReloadableOrchestrator.downstream, run.ReloadableOrchestrator.downstreamSinks, run.ReloadableOrchestrator.downstreamAddrs, lockheld
+//@   ghostset lockheld := true
 //@   ensures lockinv(lockorc) && lockorc.downstream != nil
 //@ fieldspec ReloadableOrchestrator.downstreamMutex.RUnlock(m *xsync.RBMutex, t *xsync.RToken)
 //@   requires[every-registered-sink-belongs-to-the-live-orchestrator] lockinv(lockorc)
+//@   modifies lockheld
+//@   ghostset lockheld := false
 //@ func (orc *ReloadableOrchestrator) NewSink(clientAddress string, clientNumber base.ClientNumber) base.BufferReceiverSink
 //@   property C17
 //@   requires orc != nil && orc.downstream != nil && orc.downstreamMutex != nil && orc.logger != nil && 0 <= clientNumber && clientNumber < 262144
@@ -117,3 +134,27 @@ package run
 //@   flag nosafety
 //@   modifies everything
 //@   ensures[compatible-configs-keep-the-number-of-outputs] result == nil ==> len(newConf.OutputBuffersPairs) == len(oldConf.OutputBuffersPairs)
+
+// ---- the per-connection wrapper: every use of the downstream sink happens between RLock and RUnlock
+//@ fieldspec ReloadableSink.downstreamMutex.RLock(m *xsync.RBMutex) *xsync.RToken
+//@   modifies lockheld
+//@   ghostset lockheld := true
+//@ fieldspec ReloadableSink.downstreamMutex.RUnlock(m *xsync.RBMutex, t *xsync.RToken)
+//@   modifies lockheld
+//@   ghostset lockheld := false
+//@ pure func rsinkok(s *ReloadableSink) bool := s != nil && s.downstreamMutex != nil && s.downstreamPtr != nil && *s.downstreamPtr != nil
+//@ func (sink *ReloadableSink) Accept(buffer []*base.LogRecord)
+//@   property C17
+//@   requires rsinkok(sink)
+//@   define   !lockheld
+//@   modifies lockheld
+//@ func (sink *ReloadableSink) Tick()
+//@   property C17
+//@   requires rsinkok(sink)
+//@   define   !lockheld
+//@   modifies lockheld
+//@ func (sink *ReloadableSink) Close()
+//@   property C17
+//@   requires rsinkok(sink)
+//@   define   !lockheld
+//@   modifies lockheld, *sink.downstreamPtr
